@@ -359,7 +359,91 @@ func extMathRound(mode string, concrete func(float64) float64) externalFn {
 	}
 }
 
+// fpTerm views a float64 operand (concrete or symbolic) as an SMT floating-point term.
+func fpTerm(v value) (string, bool) {
+	switch x := v.(type) {
+	case float64:
+		return fpConst(x), true
+	case *sym:
+		if x.k == symFP {
+			return x.e, true
+		}
+	}
+	return "", false
+}
+
 func init() {
+	// math functions on symbolic doubles, as IEEE terms (concrete operands use the host functions)
+	concrete1 := func(name string, f func(float64) float64, term func(x string) string) {
+		externals["math."+name] = func(fr *frame, args []value) value {
+			if x, ok := args[0].(float64); ok {
+				return f(x)
+			}
+			if x, ok := fpTerm(args[0]); ok {
+				return &sym{e: term(x), k: symFP}
+			}
+			panic(unsupported("math." + name + " of a non-double operand"))
+		}
+	}
+	concrete1("Abs", math.Abs, func(x string) string { return "(fp.abs " + x + ")" })
+	concrete1("Sqrt", math.Sqrt, func(x string) string { return "(fp.sqrt RNE " + x + ")" })
+	concrete1("Round", math.Round, func(x string) string { return "(fp.roundToIntegral RNA " + x + ")" })
+	concrete1("RoundToEven", math.RoundToEven, func(x string) string { return "(fp.roundToIntegral RNE " + x + ")" })
+	nan := "(_ NaN 11 53)"
+	minmax := func(name string, f func(a, b float64) float64, pick func(x, y string) string) {
+		externals["math."+name] = func(fr *frame, args []value) value {
+			a, ok1 := args[0].(float64)
+			b, ok2 := args[1].(float64)
+			if ok1 && ok2 {
+				return f(a, b)
+			}
+			x, okx := fpTerm(args[0])
+			y, oky := fpTerm(args[1])
+			if !okx || !oky {
+				panic(unsupported("math." + name + " of a non-double operand"))
+			}
+			return &sym{e: "(ite (or (fp.isNaN " + x + ") (fp.isNaN " + y + ")) " + nan + " " + pick(x, y) + ")", k: symFP}
+		}
+	}
+	// equal operands differ at most in the sign of zero: Max prefers +0, Min prefers -0
+	minmax("Max", math.Max, func(x, y string) string {
+		return "(ite (fp.gt " + x + " " + y + ") " + x + " (ite (fp.gt " + y + " " + x + ") " + y + " (ite (fp.isNegative " + x + ") " + y + " " + x + ")))"
+	})
+	minmax("Min", math.Min, func(x, y string) string {
+		return "(ite (fp.lt " + x + " " + y + ") " + x + " (ite (fp.lt " + y + " " + x + ") " + y + " (ite (fp.isNegative " + x + ") " + x + " " + y + ")))"
+	})
+	for name, pred := range map[string]string{"IsNaN": "fp.isNaN", "Signbit": "fp.isNegative"} {
+		name, pred := name, pred
+		externals["math."+name] = func(fr *frame, args []value) value {
+			if x, ok := args[0].(float64); ok {
+				if name == "IsNaN" {
+					return math.IsNaN(x)
+				}
+				return math.Signbit(x)
+			}
+			if x, ok := fpTerm(args[0]); ok {
+				return mkBool("(" + pred + " " + x + ")")
+			}
+			panic(unsupported("math." + name + " of a non-double operand"))
+		}
+	}
+	externals["math.IsInf"] = func(fr *frame, args []value) value {
+		sign, oks := args[1].(int)
+		if x, ok := args[0].(float64); ok && oks {
+			return math.IsInf(x, sign)
+		}
+		x, ok := fpTerm(args[0])
+		if !ok || !oks {
+			panic(unsupported("math.IsInf of a non-double operand"))
+		}
+		switch {
+		case sign > 0:
+			return mkBool("(and (fp.isInfinite " + x + ") (fp.isPositive " + x + "))")
+		case sign < 0:
+			return mkBool("(and (fp.isInfinite " + x + ") (fp.isNegative " + x + "))")
+		}
+		return mkBool("(fp.isInfinite " + x + ")")
+	}
 	externals["math.Trunc"] = extMathRound("RTZ", math.Trunc)
 	externals["math.Floor"] = extMathRound("RTN", math.Floor)
 	externals["math.Ceil"] = extMathRound("RTP", math.Ceil)
